@@ -522,9 +522,14 @@ func init() {
 				"(and (> (/ 7 KI0) 1) b0)", "(or b0 (= (/ KI0 KI1) 2))", "(if (> (/ 1 0) 0) i0 i1)", "(+ (/ 7 0) i0)", "(and false (> (/ 1 0) 0))",
 				"(and (p KB0) (> (/ 7 KI0) i0) b0)", "(or (p true) (p false) b0)", "(+ (q 1) (q KI0) i0)", "(and b0 (or KB0 (p b1)) (not (p KB1)))",
 				"(and (or b0 KB0) (or KB1 b1) b2)", "(or (and b0 KB0) (and KB1 b1) b2)", "(if KB0 (and b0 KB1) (or b1 KB2))",
+				// membership in the empty list is not decided by the list alone: the other operand still runs, fails, has its type
+				"(or (in (q i0) ()) b0)", "(in (/ 7 KI0) ())", "(and (not (in (p b0) ())) b1)", "(if (in i0 ()) (q 1) i1)", "(in (q KI0) ())",
 			} {
 				units = append(units, Unit{"VerifC10", []string{src, "", "all"}}, Unit{"VerifC10", []string{src, "pqz", "all"}}, Unit{"VerifC10", []string{src, "p", "all"}},
-					Unit{"VerifC10", []string{src, "q", "all"}}, Unit{"VerifC10", []string{src, "pqz", "all", "value"}})
+					Unit{"VerifC10", []string{src, "q", "all"}}, Unit{"VerifC10", []string{src, "pqz", "all", "value"}}, Unit{"VerifC10", []string{src, "p", "all", "decoy"}})
+			}
+			for _, src := range shapeFamily(1, leavesExhaustVK, false, "BI") {
+				units = append(units, Unit{"VerifC10", []string{src, "", "all", "decoy"}})
 			}
 			return units
 		},
